@@ -64,7 +64,7 @@ def run(tier, seed):
     plan = [("tut13x2", None, 40), ("tut13r", None, 30), ("guix2", None, 30), ("tut13x2", slow, 20)] if quick else \
            [("tut13x2", None, 300), ("tut13x2", slow, 150), ("tut13x3", slow, 100), ("tut13x3", None, 300), ("tut13r", None, 250), ("guix2", None, 250), ("getx2", None, 200), ("tut13c", None, 200),
             ("tut1x1", None, 150), ("tut13x4", None, 150)]
-    return D.generic_run(PID, tier, seed, plan, make_jobs, signature, describe, explore_plan=D.explore_plan(tier, ['Completed']), settings_of=settings_of, post=post,
+    return D.generic_run(PID, tier, seed, plan, make_jobs, signature, describe, explore_plan=D.explore_plan(tier, ['Completed'], lost=True), settings_of=settings_of, post=post,
                          rule="randomized timing/outcomes incl. never-reported results, max_tries {1,2,3}, restricted workers, dry runs, initial pools; "
                               "step watchdog of 6000 events; TLC validates completion, definite results, executed-at-least-once, dry-run inertness")
 
